@@ -32,6 +32,7 @@ def regen(ctx):
 from C12_arith import SP, MR_BASES, mr_pass, is_prime, rand_prime
 import C12_val
 import C12_obj
+import C12_cw
 from C12_val import Op
 
 
@@ -346,6 +347,7 @@ def generate(ctx, std, bels):
     ops = corpus(ctx)
     ops += C12_val.generate(ctx, std, bels, x_c12.extract_lr("src/crypto/stb99.c"), x_c12.extract_lr("src/crypto/pfok.c"),
                             x_c12.extract_consts()["stb99RiMargin"])
+    ops += C12_cw.generate(ctx, std, x_c12.extract_lr("src/crypto/stb99.c"), x_c12.extract_lr("src/crypto/pfok.c"))
     o_ops, fix7 = C12_obj.generate(ctx, std, vcommon.REPO)
     ops += o_ops
     ctx.cov["qrIsOperable_damaged_o_count_ops"] = "included" if fix7 else "skipped: qrIsOperable still walks nested objects first (docs/C12.fix-7.diff)"
@@ -420,6 +422,11 @@ def run(ctx):
             bad_model.setdefault(o.klass, []).append((o, c, l))
     ctx.cov["ops_by_class"] = dict(kl)
     ctx.cov["classes"] = len(set(o.klass for o in ops))
+    # per conjunct of every parameter validator: is an object failing exactly that conjunct in the stream?
+    cw = C12_cw.report(ops)
+    ctx.cov["conjunct_witnesses"] = cw
+    ctx.cov["conjuncts_with_witness"] = sum(1 for v in cw.values() for r in v if r["witness"])
+    ctx.cov["conjuncts_without_witness"] = ["%s: %s (%s)" % (k, r["conjunct"], r["remark"]) for k, v in cw.items() for r in v if not r["witness"]]
     ctx.cov["distinct_nontrivial"] = len(set(o.line for o in ops))
     ctx.cov["oracle_disagreements"] = sum(len(v) for v in bad_oracle.values())
     ctx.cov["model_disagreements"] = sum(len(v) for v in bad_model.values())
